@@ -95,6 +95,8 @@ type frame struct {
 	loopOrd  map[*ssa.BasicBlock]int
 	entryArgs []Term
 	callSites map[string][]ssa.Instruction
+	callArgs  []Term
+	callArgTypes []types.Type
 	mapKV     *[2]tv
 	lastLoadHW string
 	lastLoadBase string
